@@ -21,10 +21,10 @@ def datahub_stage(v, sd, binary, name, *, ds, ent, contents, preds=("p",), max_b
                   kinds=("ent", "chg", "look"), limits=(0, 1, 2), readers=(), spec="SpecCreated", tables="plain",
                   adapters="go", invariants=CORE_INV, props=CORE_PROPS, classify=None, view="view",
                   sample=False, seed=None, fan=4, stride_extra=1, tlc_timeout=1500, heap="8g", inv_ref=True,
-                  per_world=400, rotate=False):
+                  per_world=400, rotate=False, target=None):
     """One TLC run of spec/Datahub.tla (exhaustive or simulation) + replay of everything it emitted."""
     consts = {"DsSeq": list(ds), "Ent": set(ent), "MaxBatch": max_batch, "MaxSteps": max_steps, "Acts": set(acts),
-              "ObsKinds": set(kinds), "Limits": set(limits), "Fan": fan,
+              "ObsKinds": set(kinds), "Limits": set(limits), "Fan": fan, "Precreated": spec.startswith("SpecCreated"),
               "Readers": set() if not readers else verif.Raw("{" + ", ".join(verif.tla_value(r) for r in readers) + "}")}
     constraint = "Emit"
     if sample:
@@ -37,6 +37,10 @@ def datahub_stage(v, sd, binary, name, *, ds, ent, contents, preds=("p",), max_b
     st = verif.run_tlc(sd, name, out, timeout=tlc_timeout, heap=heap, seed=seed if sample else None,
                        workers=4 if sample else None)
     v.add_tlc(st)
+    if target and st["emitted"] > target:
+        # bound the replay cost of sampled stages: replay every k-th emitted behaviour (recorded in the evidence)
+        stride_extra = -(-st["emitted"] // target)
+        v.cov["stages"].append({"name": name + ":thinned", "emitted": st["emitted"], "replayed_every": stride_extra})
     tot, results = verif.replay(binary, v.wd, out, tables=tables, adapters=adapters, label=name,
                                 stride_extra=stride_extra, per_world=per_world, rotate=rotate, seed=v.seed)
     v.add_replay(tot, results, classify=classify, label=name)
@@ -83,7 +87,7 @@ def check_C01(tier, seed):
     # (c) deeper random histories
     datahub_stage(v, sd, binary, "C01_sim", ds=["a", "b"], ent=["e1", "e2", "e3"], contents=c01_contents(),
                   max_batch=2, max_steps=9 if thorough else 7, acts=("store", "txn"), tables=tabs, kinds=("ent", "look"),
-                  sample=True, seed=seed, rotate=True, fan=6 if thorough else 5)
+                  sample=True, seed=seed, rotate=True, fan=6 if thorough else 5, target=60000 if thorough else 6000)
     v.assumptions = ["entity contents are those of the concretisation tables (harness/.../concretize.go)",
                      "ids <= 3, datasets <= 2, bounded history depth (small-scope hypothesis)",
                      "badger, encoding/json are trusted"]
@@ -116,7 +120,7 @@ def check_C02(tier, seed):
     # (d) deeper sampled histories with readers
     datahub_stage(v, sd, binary, "C02_deep", ds=["a", "b"], ent=["e1", "e2", "e3"], contents=c4, max_batch=2,
                   max_steps=9 if thorough else 7, acts=("store", "txn", "read"), readers=readers, tables=tabs,
-                  kinds=("chg",), sample=True, seed=seed, rotate=True, fan=6 if thorough else 5)
+                  kinds=("chg",), sample=True, seed=seed, rotate=True, fan=6 if thorough else 5, target=60000 if thorough else 6000)
     v.assumptions = ["change positions are compared numerically (tokens are the documented sequence numbers)",
                      "contents from the concretisation tables; ids <= 3; bounded depth"]
     return v.finish(rule=RULE_REPLAY)
@@ -203,7 +207,7 @@ def check_C03(tier, seed):
     datahub_stage(v, sd, binary, "C03_deep", ds=["a", "b"], ent=["e1", "e2", "e3"], preds=("p", "q"), contents=rc,
                   max_batch=2, max_steps=8 if thorough else 6, acts=("store", "txn"), tables=tabs, kinds=kinds,
                   limits=(0, 1, 2, 3), sample=True, seed=seed, rotate=True, fan=6 if thorough else 5,
-                  classify=cl(rc))
+                  classify=cl(rc), target=40000 if thorough else 3000)
     v.assumptions = ["scopes are subsets of the existing datasets (a scope naming only unknown datasets is reported separately)",
                      "ids <= 3, predicates <= 2, datasets <= 2, bounded depth"]
     return v.finish(rule=RULE_REPLAY)
@@ -245,9 +249,91 @@ def check_C06(tier, seed):
     datahub_stage(v, sd, binary, "C06_deep", ds=["a", "b"], ent=["e1", "e2", "e3"], preds=("p", "q"), contents=rc,
                   max_batch=2, max_steps=8 if thorough else 6, acts=("store", "txn", "tick"), tables=tabs,
                   kinds=kinds, limits=(0, 2), sample=True, seed=seed, rotate=True, fan=6 if thorough else 5,
-                  classify=cl(rc))
+                  classify=cl(rc), target=40000 if thorough else 3000)
     v.assumptions = ["each specification instant t is asked at three real instants: just after action t completed, "
                      "exactly at the commit time of action t, and one nanosecond before the commit of action t+1",
                      "relationship answers at past instants are compared as (start, predicate, related id) sets",
                      "maintenance operations (dataset delete, compaction) are excluded here (C07, C12)"]
+    return v.finish(rule=RULE_REPLAY)
+
+
+# ----------------------------------------------------------------------------
+# C07 / C19 / C14 (core part)
+
+def mgmt_contents():
+    return [content(1, p=(1, ["e2"])), content(0, d=True), content(2, p=(2, ["e1", "e2"]))]
+
+
+def check_C07(tier, seed):
+    v = Verdict("C07", tier, seed)
+    v.wd = verif.workdir("C07")
+    sd = verif.spec_copy(v.wd)
+    binary = verif.build_harness(v.wd)
+    thorough = tier == "thorough"
+    mc = mgmt_contents()
+    kinds = ("ent", "chg", "look", "rel")
+    cl = classify_c03
+    acts = ("store", "create", "delete", "rename", "gc", "restart")
+    # exhaustive: both datasets exist initially; delete / re-create / rename / gc / restart at every position
+    datahub_stage(v, sd, binary, "C07_mgmt", spec="SpecCreated", ds=["a", "b"], ent=["e1", "e2"], contents=mc[:2],
+                  max_batch=1, max_steps=5 if thorough else 4, acts=acts, tables="plain", kinds=kinds,
+                  limits=(0, 1), classify=cl(mc[:2]), rotate=True, per_world=150)
+    # exhaustive from the empty hub (creation order, first use of names)
+    mc1 = [content(1, p=(1, ["e1"])), content(0, d=True)]
+    datahub_stage(v, sd, binary, "C07_fromempty", spec="Spec", ds=["a", "b"], ent=["e1"], contents=mc1,
+                  max_batch=1, max_steps=7 if thorough else 6, acts=("store", "create", "delete", "rename", "gc"),
+                  tables="plain", kinds=kinds, limits=(0, 1), classify=cl(mc1), rotate=True, per_world=150)
+    datahub_stage(v, sd, binary, "C07_deep", spec="Spec", ds=["a", "b", "c"], ent=["e1", "e2"], contents=mc,
+                  max_batch=2, max_steps=10 if thorough else 8, acts=acts + ("txn",), tables="plain,eqlen",
+                  kinds=kinds, limits=(0, 1), sample=True, seed=seed, fan=5 if thorough else 4, classify=cl(mc),
+                  rotate=True, per_world=100, target=30000 if thorough else 3000)
+    v.assumptions = ["queries whose scope names a dataset that does not exist are not asked (reported separately, DESIGN 8.5)",
+                     "crash points inside create/rename/delete are covered by the crash stage of C04"]
+    return v.finish(rule=RULE_REPLAY)
+
+
+def check_C19(tier, seed):
+    v = Verdict("C19", tier, seed)
+    v.wd = verif.workdir("C19")
+    sd = verif.spec_copy(v.wd)
+    binary = verif.build_harness(v.wd)
+    thorough = tier == "thorough"
+    c = [content(1), content(0, d=True)]
+    kinds = ("cat", "ent")
+    acts = ("store", "txn", "create", "delete", "rename")
+    datahub_stage(v, sd, binary, "C19_mgmt", spec="SpecCreated", ds=["a", "b"], ent=["e1", "e2"], contents=c,
+                  max_batch=2, max_steps=3 if thorough else 2, acts=acts, tables="plain", kinds=kinds,
+                  rotate=True, per_world=150)
+    datahub_stage(v, sd, binary, "C19_fromempty", spec="Spec", ds=["a", "b"], ent=["e1", "e2"], contents=c,
+                  max_batch=1, max_steps=6 if thorough else 5, acts=acts, tables="plain", kinds=kinds,
+                  rotate=True, per_world=150)
+    datahub_stage(v, sd, binary, "C19_deep", spec="Spec", ds=["a", "b", "c"], ent=["e1", "e2", "e3"], contents=c,
+                  max_batch=2, max_steps=10 if thorough else 8, acts=acts + ("restart",), tables="plain",
+                  kinds=kinds, sample=True, seed=seed, fan=5 if thorough else 4, rotate=True, per_world=100,
+                  target=30000 if thorough else 4000)
+    v.assumptions = ["proxy / virtual / publicNamespaces settings are checked by the settings stage (later)",
+                     "concurrent counter updates are covered by the concurrency stage (C05 machinery)"]
+    return v.finish(rule=RULE_REPLAY)
+
+
+def check_C14(tier, seed):
+    v = Verdict("C14", tier, seed)
+    v.wd = verif.workdir("C14")
+    sd = verif.spec_copy(v.wd)
+    binary = verif.build_harness(v.wd)
+    thorough = tier == "thorough"
+    mc = mgmt_contents()
+    kinds = ("ent", "chg", "look", "rel", "cat")
+    cl = classify_c03
+    acts = ("store", "txn", "create", "delete", "rename", "restart")
+    # restart inserted at every position of every bounded history; the suffix runs on the restarted hub
+    datahub_stage(v, sd, binary, "C14_core", spec="SpecCreated", ds=["a", "b"], ent=["e1", "e2"], contents=mc[:2],
+                  max_batch=1, max_steps=5 if thorough else 4, acts=("store", "delete", "create", "rename", "restart"),
+                  tables="plain", kinds=kinds, limits=(0, 1), classify=cl(mc[:2]), rotate=True, per_world=100)
+    datahub_stage(v, sd, binary, "C14_deep", spec="Spec", ds=["a", "b", "c"], ent=["e1", "e2", "e3"], contents=mc,
+                  max_batch=2, max_steps=10 if thorough else 8, acts=acts + ("gc",), tables="plain,eqlen",
+                  kinds=kinds, limits=(0, 1, 2), sample=True, seed=seed, fan=5 if thorough else 4, classify=cl(mc),
+                  rotate=True, per_world=100, target=20000 if thorough else 2500)
+    v.assumptions = ["restart = Store.Close + NewStore + NewDsManager on the same directory, at quiescent points",
+                     "job definitions / tokens and security state across restart are checked by the hub-level stage"]
     return v.finish(rule=RULE_REPLAY)
